@@ -91,6 +91,23 @@ FIXED = [
     ({"m.bitproto": 'proto m\nimport me "./m.bitproto"\n'}, "m.bitproto", "cyclic-import", "m.bitproto", 2),
     ({"s.bitproto": "proto s\nconst A = 1\n", "m.bitproto": 'proto m\nimport "s.bitproto"\nimport t "s.bitproto"\n'}, "m.bitproto", "duplicate-import", "m.bitproto", 3),
     ({"s.bitproto": "proto s\nconst A = 1\n", "m.bitproto": 'proto m\nimport a "./s.bitproto"\nconst B = a.A\n'}, "m.bitproto", None, "", 0),
+    # a definition is visible only after it closes: no self-reference, no reference to a message that is still open
+    ({"m.bitproto": "proto m\nmessage Node {\n    uint8 value = 1\n    Node next = 2\n}\n"}, "m.bitproto", "undefined-type", "m.bitproto", 4),
+    ({"m.bitproto": "proto m\nmessage Tree {\n    Tree[2] children = 1\n}\n"}, "m.bitproto", "undefined-type", "m.bitproto", 3),
+    ({"m.bitproto": "proto m\nmessage A {\n    message B {\n        A back = 1\n    }\n}\n"}, "m.bitproto", "undefined-type", "m.bitproto", 4),
+    ({"m.bitproto": "proto m\nmessage A {\n    message B {\n        A.B again = 1\n    }\n}\n"}, "m.bitproto", "undefined-type", "m.bitproto", 4),
+    # ... but an EARLIER outer definition of the same name is what such a use means
+    ({"m.bitproto": "proto m\nmessage Node {\n    uint3 a = 1\n}\nmessage Tree {\n    message Node {\n        Node inner = 1\n    }\n}\n"}, "m.bitproto", None, "", 0),
+    # the innermost declaration of a name wins even when it is of the wrong kind (then the use is an error)
+    ({"m.bitproto": "proto m\nenum Color : uint3 {\n    COLOR_A = 0\n}\nmessage Pen {\n    uint8 Color = 1\n    Color tint = 2\n}\n"}, "m.bitproto", "not-a-type", "m.bitproto", 7),
+    ({"m.bitproto": "proto m\nconst N = 4\nmessage M {\n    enum N : uint3 {\n        N_A = 0\n    }\n    byte[N] data = 1\n}\n"}, "m.bitproto", "not-a-constant", "m.bitproto", 7),
+    ({"m.bitproto": "proto m\nmessage Frame {\n    message Header {\n        uint5 h = 1\n    }\n}\nmessage Box {\n    message Frame {\n        uint3 Header = 1\n    }\n    Frame.Header x = 1\n}\n"}, "m.bitproto", "not-a-type", "m.bitproto", 11),
+    # what Python calls white space but the lexer does not ignore is an invalid token, also at the very end
+    ({"m.bitproto": "proto m\nmessage M { }\n\x0c"}, "m.bitproto", "lex", "m.bitproto", 3),
+    ({"m.bitproto": "proto m\nmessage M { }\n\x0b  \n\n"}, "m.bitproto", "lex", "m.bitproto", 3),
+    ({"m.bitproto": "proto m\nmessage M { }\n\u00a0\n"}, "m.bitproto", "lex", "m.bitproto", 3),
+    # arithmetic is exact whatever the size
+    ({"m.bitproto": "proto m\nconst A = " + "9" * 400 + " / " + "3" * 399 + "\nmessage M {\n    byte[A] d = 1\n}\n"}, "m.bitproto", None, "", 0),
 ]
 
 
